@@ -471,7 +471,10 @@ def _havoc_and_assume(ex: Exec, c, fi, env, call_heap, known, raising: str | Non
         if "on_raise" in c.clauses:
             saved_fb = getattr(ex, "fresh_base", None)
             ex.fresh_base = fresh_base
-            for _, b in ex.eval_clause(c.clauses["on_raise"], env, call_heap):
+            env_r = dict(env)
+            for k in (0, 1):  # the exception's arguments: nothing known about them at a call site
+                env_r.setdefault(f"exc{k}", SV(ex.fresh("excarg"), T.ANY))
+            for _, b in ex.eval_clause(c.clauses["on_raise"], env_r, call_heap, tolerant=True):
                 ex.assume(b)
             ex.fresh_base = saved_fb
         return sv_none()
